@@ -186,7 +186,8 @@ func c11Multi(c *Ctx, cond string, tags []string, cands []string, rg *mon.Rng, l
 			for ti, t := range tags {
 				m[t] = pr[ti%2]
 			}
-			a, b := influxql.EvalBool(orig, m), influxql.EvalBool(sel.Condition, m)
+			ea := influxql.ValuerEval{Valuer: c11Valuer(m)}
+			a, b := ea.EvalBool(orig), ea.EvalBool(sel.Condition)
 			if a != b {
 				nl := false
 				for _, v := range m {
@@ -213,6 +214,20 @@ func c11Multi(c *Ctx, cond string, tags []string, cands []string, rg *mon.Rng, l
 	if viol != nil {
 		viol()
 	}
+}
+
+// c11Valuer supplies the tag values and one function, up(s) = upper-case s,
+// so that a predicate built on a call has a meaning of its own.
+type c11Valuer map[string]interface{}
+
+func (m c11Valuer) Value(k string) (interface{}, bool) { v, ok := m[k]; return v, ok }
+func (m c11Valuer) Call(name string, args []interface{}) (interface{}, bool) {
+	if name == "up" && len(args) == 1 {
+		if s, ok := args[0].(string); ok {
+			return strings.ToUpper(s), true
+		}
+	}
+	return nil, false
 }
 
 func c11Bodies(limit int) []string {
@@ -317,7 +332,11 @@ func checkC11(c *Ctx) (string, bool, []string) {
 	// whole sources that do not fit the prefix x body x suffix scheme: anchors
 	// inside the branches of a top-level alternation, in groups, repeated
 	whole := []string{"^$|^a$", "^a$|^$", "^a$|^b$", "^(a|b)$|^$", "^a$|^$|^b$", "^$|^$", "^a|b$", "^a$|b", "a|^b$", "(^a$)|(^b$)", "(^a$|^$)", "^(^a$|^b$)$", "(?:^a$)", "^(?:a$|b$)", "^(?:^a|^b)$",
-		"^a$|^a$", "^ab$|^a$|^$", "^$|a", "^(a|^$)$", "(^)(a)($)", "^a$$|^^b$", "\\Aa\\z|\\Ab\\z", "^a\\z|\\Ab$", "(?i)^a$|^b$", "^a$|(?i)^b$", "(?m)^a$|^b$", "^[ab]$|^c$", "^a?$|^b$", "^a{2}$|^$"}
+		"^a$|^a$", "^ab$|^a$|^$", "^$|a", "^(a|^$)$", "(^)(a)($)", "^a$$|^^b$", "\\Aa\\z|\\Ab\\z", "^a\\z|\\Ab$", "(?i)^a$|^b$", "^a$|(?i)^b$", "(?m)^a$|^b$", "^[ab]$|^c$", "^a?$|^b$", "^a{2}$|^$",
+		// class ranges that cross a UTF-8 width boundary (1|2, 2|3, 3|4 bytes)
+		"^[\\x{7e}-\\x{81}]$", "^srv[x-\\x{a1}]$", "^[\\x{7fd}-\\x{802}]x$", "^[\\x{fffe}-\\x{10001}]$", "^[a\\x{80}\\x{800}\\x{10000}]$", "^[\\x{7f}-\\x{9f}]{2}$",
+		// alternations whose branches stand for several strings each, around the 100-literal limit
+		"^(a[a-z]|b[a-z]|c[a-z]|d[a-z])$", "^(a[a-y]|b[a-y]|c[a-y]|d[a-y])$", "^(rack[0-8][0-9]|spare[0-9][0-9])$", "^([a-j][a-i]|[a-j])$", "^([a-j][a-i]|[a-k])$", "^(x|[a-j][a-j])$", "^([a-j][a-j]|x)$"}
 	for _, src := range whole {
 		for _, op := range []string{"=~", "!~"} {
 			local := map[string]int64{}
@@ -349,6 +368,10 @@ func checkC11(c *Ctx) (string, bool, []string) {
 				return tag + " = '" + rg.Pick("a", "ab", "b") + "'"
 			case 1:
 				return tag + " != '" + rg.Pick("a", "ab", "") + "'"
+			case 5:
+				// a predicate on a function of the tag: not a regex test, must stay as it is
+				local["multi.call-predicate"]++
+				return "up(" + tag + ") " + rg.Pick("=", "!=") + " '" + rg.Pick("A", "AB", "B", "") + "'"
 			case 2, 3, 4:
 				// fully anchored finite languages of 1-4 strings: several rewritten
 				// predicates of both polarities meet in one condition
